@@ -190,6 +190,25 @@ Lemma neutral_images es d img :
   Forall neutral es -> Good d -> crash_image d es img -> Good img /\ olog img = olog d.
 Proof. intros Hn Hg. apply safe_run_images; [apply neutral_safe_run; assumption|exact Hg]. Qed.
 
+(* events that do not touch the segment files proper: every image has the same log files *)
+Lemma no_log_images_same_log es : forall d img,
+  Forall (fun e => touches_log e = false) es -> crash_image d es img -> same_log d img.
+Proof.
+  induction es as [|e es IH]; intros d img Hn H.
+  - inversion H; subst. apply same_log_refl.
+  - inversion Hn as [|? ? He Hn']; subst.
+    inversion H as [d0 es0|d0 e0 es0 img0 H'|d0 id seq off r es0 c Hc0 Hc1]; subst.
+    + apply same_log_refl.
+    + eapply same_log_trans; [apply apply_ev_same_log; exact He|apply IH; assumption].
+    + discriminate He.
+Qed.
+
+(* the writes of the index files and of the metadata files are neutral whatever they write: none of
+   the theorems below looks at the payload of these events *)
+Lemma neutral_payload_free (i : flat) id seq (sm : smeta) (sd : N) :
+  neutral (EIndex i) /\ neutral (EGobIndex i) /\ neutral (EGobSeg id seq sm) /\ neutral (EGobDb sd).
+Proof. repeat split. Qed.
+
 (* ================================================================================================ *)
 (* 3. A write (Put / Delete of a present key): prelude, append, index                               *)
 Definition tails_nil (d : disk) : Prop := forall f, In f (d_segs d) -> f_tail f = [].
@@ -919,8 +938,7 @@ Proof.
   assert (S3 : srun s2 s3) by (rewrite Efold; apply srun_hdr_fold; exact Hg2).
   destruct (srun_good _ _ S3 Hg2) as [Hg3 _].
   (* swapSegment *)
-  set (m0 := ({| m_segs := segs; m_cur := (0, 0); m_cur_removed := true;
-                 m_maxseq := fold_left (fun n g => N.max n (g_seq g)) segs 0; m_idx := []; m_seed := seed |} : mem)).
+  match goal with |- context [swap_segment flat_ops s3 ?m] => set (m0 := m) end.
   assert (S4 : srun s3 (fst (swap_segment flat_ops s3 m0))).
   { apply srun_swap; [exact Hg3|exact Hmag3|exact Hinc3|]. intros g Hin. apply (rc_fold_max_ge segs 0). exact Hin. }
   destruct (swap_segment flat_ops s3 m0) as [s4 m1]. cbn [fst] in S4.
@@ -929,8 +947,7 @@ Proof.
   { eapply srun_trans; [exact S1|]. eapply srun_trans; [exact S2|]. eapply srun_trans; [exact S3|exact S4]. }
   cbn [ix_count flat_ops nlen]. change (0 =? 0) with true. cbv iota.
   (* recover *)
-  set (m2 := {| m_segs := m_segs m1; m_cur := m_cur m1; m_cur_removed := m_cur_removed m1;
-                m_maxseq := m_maxseq m1; m_idx := m_idx m1; m_seed := seed |}).
+  match goal with |- context [recover flat_ops P s4 ?m] => set (m2 := m) end.
   pose proof (srun_recover P s4 m2 Hg4) as S5.
   destruct (recover flat_ops P s4 m2) as [s5 m3]. cbn [fst] in S5 |- *.
   eapply srun_trans; [exact S04|]. eapply srun_trans; [exact S5|].
@@ -965,3 +982,366 @@ Proof.
   exists s2. split; [exact E2|]. split; [exact HI2|]. split; [exact Hm2|]. split; [exact Hb2|].
   intros k. rewrite Ha2. apply Hc.
 Qed.
+
+(* ================================================================================================ *)
+(* 7. C04: any finite sequence of epochs  [history of acknowledged operations ; crash in the middle
+      of an operation ; recovery attempts that crash themselves ; a recovery that completes]        *)
+Inductive op := OpPut (k : key) (v : val) | OpDelete (k : key) | OpSync.
+
+Definition run_op (P : params) (o : op) (s : st) : st :=
+  match o with
+  | OpPut k v => fst (db_put flat_ops P k v (clear_trace s))
+  | OpDelete k => fst (db_delete flat_ops P k (clear_trace s))
+  | OpSync => fst (db_sync flat_ops (clear_trace s))
+  end.
+
+(* the per-operation side conditions ([room]: no segment is within one maximal record of 4 GiB) *)
+Definition op_pre (o : op) (s : st) : Prop :=
+  match o with
+  | OpPut k v => (exists m, s_mem s = Some m /\ room m) /\
+                 Forall byte k /\ Forall byte v /\ nlen k <= max_key_len /\ nlen v <= max_val_len
+  | OpDelete k => (exists m, s_mem s = Some m /\ room m) /\ Forall byte k
+  | OpSync => True
+  end.
+
+(* an open, consistent database *)
+Definition Open (P : params) (s : st) : Prop := Inv P s /\ s_mem s <> None /\ bac_ok (s_disk s).
+
+(* contents, as a function; the specification of the operations *)
+Definition cmap := key -> option val.
+Definition cont (d : disk) : cmap := fun k => sget (abs d) k.
+Definition ceq (a b : cmap) : Prop := forall k, a k = b k.
+Definition spec_op (o : op) (c : cmap) : cmap :=
+  match o with
+  | OpPut k v => fun k' => if key_eqb k' k then Some v else c k'
+  | OpDelete k => fun k' => if key_eqb k' k then None else c k'
+  | OpSync => c
+  end.
+Definition spec_hist (h : list op) (c : cmap) : cmap := fold_left (fun c o => spec_op o c) h c.
+
+Lemma ceq_refl c : ceq c c. Proof. intros k. reflexivity. Qed.
+Lemma ceq_sym a b : ceq a b -> ceq b a. Proof. intros H k. symmetry. apply H. Qed.
+Lemma ceq_trans a b c : ceq a b -> ceq b c -> ceq a c. Proof. intros H1 H2 k. rewrite H1. apply H2. Qed.
+Lemma spec_op_ceq o a b : ceq a b -> ceq (spec_op o a) (spec_op o b).
+Proof. intros H k. destruct o as [k0 v|k0|]; cbn [spec_op]; try rewrite H; reflexivity. Qed.
+Lemma spec_hist_ceq h : forall a b, ceq a b -> ceq (spec_hist h a) (spec_hist h b).
+Proof.
+  induction h as [|o h IH]; intros a b H; [exact H|]. unfold spec_hist. cbn [fold_left].
+  apply IH. apply spec_op_ceq. exact H.
+Qed.
+
+(* a completed operation: its final disk is one of its crash images, and it meets its specification *)
+Lemma op_final_image P o (s : st) :
+  params_ok P -> Open P s -> op_pre o s ->
+  crash_image (s_disk s) (s_trace (run_op P o s)) (s_disk (run_op P o s)).
+Proof.
+  intros HP (HI & Hm & Hb) Hpre. destruct o as [k v|k|]; cbn [run_op op_pre] in *.
+  - destruct Hpre as (Hroom & Hbk & Hbv & Hk & Hv).
+    destruct (put_ok_ex P (clear_trace s) k v HP (Inv_clear P s HI) Hroom Hbk Hbv Hk Hv)
+      as (s' & E & _ & _ & _ & id & seq & off & pre & i2 & post & Et & _ & _ & _ & _ & Ed).
+    rewrite E. cbn [fst]. cbn [clear_trace s_trace s_disk] in Et, Ed. rewrite app_nil_l in Et. rewrite Et, Ed.
+    rewrite app_assoc. apply crash_image_app_l. apply crash_image_full.
+  - destruct Hpre as (Hroom & Hbk).
+    destruct (delete_ok_ex P (clear_trace s) k HP (Inv_clear P s HI) Hroom Hbk)
+      as (s' & E & _ & _ & _ & _ & Hcases).
+    rewrite E. cbn [fst].
+    destruct Hcases as [(_ & Ed & _)|(_ & _ & id & seq & off & pre & i1 & post & Et & _ & _ & _ & _ & Ed)].
+    + cbn [clear_trace s_disk] in Ed. rewrite Ed. apply ci_here.
+    + cbn [clear_trace s_trace s_disk] in Et, Ed. rewrite app_nil_l in Et. rewrite Et, Ed.
+      rewrite app_assoc. apply crash_image_app_l. apply crash_image_full.
+  - destruct (sync_trace s Hm) as [Ed _]. rewrite Ed. apply ci_here.
+Qed.
+
+Lemma op_crash P o (s : st) img :
+  params_ok P -> Open P s -> op_pre o s ->
+  crash_image (s_disk s) (s_trace (run_op P o s)) img ->
+  Good img /\ (ceq (cont img) (cont (s_disk s)) \/ ceq (cont img) (spec_op o (cont (s_disk s)))).
+Proof.
+  intros HP (HI & Hm & Hb) Hpre Himg. destruct o as [k v|k|]; cbn [run_op op_pre spec_op] in *.
+  - destruct Hpre as (Hroom & Hbk & Hbv & Hk & Hv).
+    pose proof (surjective_pairing (db_put flat_ops P k v (clear_trace s))) as E.
+    destruct (crash_put P s _ k v _ HP HI Hroom Hb Hbk Hbv Hk Hv E img Himg) as (G1 & G2 & G3 & Hc).
+    split; [split; [exact G1|split; assumption]|].
+    destruct Hc as [Hc|Hc]; [left; exact Hc|right].
+    pose proof (put_ok P (clear_trace s) k v HP (Inv_clear P s HI) Hroom Hbk Hbv Hk Hv) as Hp.
+    rewrite E in Hp. destruct Hp as (_ & _ & _ & Hnew). cbn [clear_trace s_disk] in Hnew.
+    intros k'. unfold cont. rewrite Hc. apply Hnew.
+  - destruct Hpre as (Hroom & Hbk).
+    pose proof (surjective_pairing (db_delete flat_ops P k (clear_trace s))) as E.
+    destruct (crash_delete P s _ k _ HP HI Hroom Hb Hbk E img Himg) as (G1 & G2 & G3 & Hc).
+    split; [split; [exact G1|split; assumption]|].
+    destruct Hc as [Hc|Hc]; [left; exact Hc|right].
+    pose proof (delete_ok P (clear_trace s) k HP (Inv_clear P s HI) Hroom Hbk) as Hp.
+    rewrite E in Hp. destruct Hp as (_ & _ & _ & Hnew & _). cbn [clear_trace s_disk] in Hnew.
+    intros k'. unfold cont. rewrite Hc. apply Hnew.
+  - pose proof (surjective_pairing (db_sync flat_ops (clear_trace s))) as E.
+    destruct (crash_sync P s _ _ HI Hm Hb E img Himg) as (G1 & G2 & G3 & Hc & _).
+    split; [split; [exact G1|split; assumption]|]. left. exact Hc.
+Qed.
+
+Lemma op_ok P o (s : st) :
+  params_ok P -> Open P s -> op_pre o s ->
+  Open P (run_op P o s) /\ ceq (cont (s_disk (run_op P o s))) (spec_op o (cont (s_disk s))).
+Proof.
+  intros HP HO Hpre.
+  destruct (op_crash P o s _ HP HO Hpre (op_final_image P o s HP HO Hpre)) as ((_ & Hb' & _) & _).
+  destruct HO as (HI & Hm & Hb). destruct o as [k v|k|]; cbn [run_op op_pre spec_op] in *.
+  - destruct Hpre as (Hroom & Hbk & Hbv & Hk & Hv).
+    pose proof (put_ok P (clear_trace s) k v HP (Inv_clear P s HI) Hroom Hbk Hbv Hk Hv) as Hp.
+    destruct (db_put flat_ops P k v (clear_trace s)) as [s' o']. cbn [fst] in *.
+    destruct Hp as (_ & HI' & Hm' & Hnew). split; [split; [exact HI'|split; assumption]|exact Hnew].
+  - destruct Hpre as (Hroom & Hbk).
+    pose proof (delete_ok P (clear_trace s) k HP (Inv_clear P s HI) Hroom Hbk) as Hp.
+    destruct (db_delete flat_ops P k (clear_trace s)) as [s' o']. cbn [fst] in *.
+    destruct Hp as (_ & HI' & Hm' & Hnew & _). split; [split; [exact HI'|split; assumption]|exact Hnew].
+  - pose proof (sync_ok P (clear_trace s) (Inv_clear P s HI) Hm) as Hp.
+    destruct (db_sync flat_ops (clear_trace s)) as [s' o']. cbn [fst] in *.
+    destruct Hp as (_ & HI' & Ed & Em). cbn [clear_trace s_disk s_mem] in Ed, Em.
+    split; [split; [exact HI'|split; [congruence|exact Hb']]|]. rewrite Ed. apply ceq_refl.
+Qed.
+
+(* a finite history of acknowledged operations *)
+Inductive history (P : params) : st -> list op -> st -> Prop :=
+| h_nil s : history P s [] s
+| h_cons s o h s' : op_pre o s -> history P (run_op P o s) h s' -> history P s (o :: h) s'.
+
+Lemma history_ok P (s : st) h sh :
+  params_ok P -> history P s h sh -> Open P s ->
+  Open P sh /\ ceq (cont (s_disk sh)) (spec_hist h (cont (s_disk s))).
+Proof.
+  intros HP H. induction H as [s|s o h s' Hpre H IH]; intros HO.
+  - split; [exact HO|apply ceq_refl].
+  - destruct (op_ok P o s HP HO Hpre) as [HO1 Hc1]. destruct (IH HO1) as [HO' Hc'].
+    split; [exact HO'|]. eapply ceq_trans; [exact Hc'|]. unfold spec_hist at 2. cbn [fold_left].
+    apply spec_hist_ceq. exact Hc1.
+Qed.
+
+(* recovery attempts: any number of recoveries that crash themselves, then one that completes *)
+Inductive recoveries (P : params) : disk -> st -> Prop :=
+| rec_done d seed : recoveries P d (fst (db_open flat_ops P seed (closed d)))
+| rec_crash d seed img s' :
+    crash_image d (s_trace (fst (db_open flat_ops P seed (closed d)))) img ->
+    recoveries P img s' -> recoveries P d s'.
+
+Lemma recoveries_ok P (d : disk) s' :
+  params_ok P -> recoveries P d s' -> Good d -> Open P s' /\ ceq (cont (s_disk s')) (cont d).
+Proof.
+  intros HP H. induction H as [d seed|d seed img s' Himg H IH]; intros (G1 & G2 & G3).
+  - destruct (crash_then_recover P seed d HP G1 G2 G3) as (s2 & E2 & HI2 & Hm2 & Hb2 & Ha2).
+    unfold closed. rewrite E2. cbn [fst]. split; [split; [exact HI2|split; assumption]|exact Ha2].
+  - destruct (crash_open_recover P seed d G1 G2 G3 img Himg) as (A1 & A2 & A3 & Hc).
+    destruct (IH (conj A1 (conj A2 A3))) as [HO Hc']. split; [exact HO|].
+    eapply ceq_trans; [exact Hc'|exact Hc].
+Qed.
+
+(* one epoch: history [h] is acknowledged, operation [o] is in flight when the process dies (a crash
+   between operations is [o := OpSync] with the image [ci_here]); then the recovery attempts *)
+Inductive epochs (P : params) : st -> list (list op * op) -> st -> Prop :=
+| ep_nil s : epochs P s [] s
+| ep_cons s h sh o img s1 rest s' :
+    history P s h sh -> op_pre o sh ->
+    crash_image (s_disk sh) (s_trace (run_op P o sh)) img ->
+    recoveries P img s1 ->
+    epochs P s1 rest s' ->
+    epochs P s ((h, o) :: rest) s'.
+
+(* what the specification allows after the same epochs: every acknowledged operation has taken
+   effect, in order; the operation in flight at each crash has taken effect entirely or not at all *)
+Inductive spec_epochs : cmap -> list (list op * op) -> cmap -> Prop :=
+| se_nil c c' : ceq c c' -> spec_epochs c [] c'
+| se_lost c h o rest c' : spec_epochs (spec_hist h c) rest c' -> spec_epochs c ((h, o) :: rest) c'
+| se_done c h o rest c' : spec_epochs (spec_op o (spec_hist h c)) rest c' -> spec_epochs c ((h, o) :: rest) c'.
+
+Lemma spec_epochs_ceq c1 es c' : spec_epochs c1 es c' -> forall c2, ceq c1 c2 -> spec_epochs c2 es c'.
+Proof.
+  intros H. induction H as [c c' Hc|c h o rest c' H IH|c h o rest c' H IH]; intros c2 H12.
+  - apply se_nil. eapply ceq_trans; [apply ceq_sym; exact H12|exact Hc].
+  - apply se_lost. apply IH. apply spec_hist_ceq. exact H12.
+  - apply se_done. apply IH. apply spec_op_ceq. apply spec_hist_ceq. exact H12.
+Qed.
+
+Theorem C04_chain P (s : st) es s' :
+  params_ok P -> Open P s -> epochs P s es s' ->
+  Inv P s' /\ s_mem s' <> None /\ bac_ok (s_disk s') /\
+  spec_epochs (cont (s_disk s)) es (cont (s_disk s')).
+Proof.
+  intros HP HO H. revert HO.
+  induction H as [s|s h sh o img s1 rest s' Hh Hpre Himg Hrec Hep IH]; intros HO.
+  - destruct HO as (A & B & C). split; [exact A|]. split; [exact B|]. split; [exact C|].
+    apply se_nil. apply ceq_refl.
+  - destruct (history_ok P s h sh HP Hh HO) as [HOh Hch].
+    destruct (op_crash P o sh img HP HOh Hpre Himg) as [Hg Hci].
+    destruct (recoveries_ok P img s1 HP Hrec Hg) as [HO1 Hc1].
+    destruct (IH HO1) as (A & B & C & Hspec).
+    split; [exact A|]. split; [exact B|]. split; [exact C|].
+    destruct Hci as [Hci|Hci].
+    + apply se_lost. apply (spec_epochs_ceq _ _ _ Hspec).
+      eapply ceq_trans; [exact Hc1|]. eapply ceq_trans; [exact Hci|exact Hch].
+    + apply se_done. apply (spec_epochs_ceq _ _ _ Hspec).
+      eapply ceq_trans; [exact Hc1|]. eapply ceq_trans; [exact Hci|]. apply spec_op_ceq. exact Hch.
+Qed.
+
+(* one epoch, spelled out: the C03 relation between consecutive reopened states *)
+Corollary C04_epoch P (s : st) h o s' :
+  params_ok P -> Open P s -> epochs P s [(h, o)] s' ->
+  Inv P s' /\ s_mem s' <> None /\
+  (ceq (cont (s_disk s')) (spec_hist h (cont (s_disk s))) \/
+   ceq (cont (s_disk s')) (spec_op o (spec_hist h (cont (s_disk s))))).
+Proof.
+  intros HP HO H. destruct (C04_chain P s _ s' HP HO H) as (A & B & _ & Hs).
+  split; [exact A|]. split; [exact B|].
+  inversion Hs as [|c h0 o0 rest c' H1|c h0 o0 rest c' H1]; subst;
+    inversion H1 as [c0 c0' Hc| |]; subst; [left|right]; apply ceq_sym; exact Hc.
+Qed.
+
+(* ================================================================================================ *)
+(* 8. Non-vacuity: a concrete database, a Put that has to start a new segment, a torn image of it   *)
+Definition ex_P : params :=
+  {| p_maxseg := 540; p_minseg := 0; p_frag := fun _ _ => false; p_sync := true;
+     p_grow := fun _ _ => false; p_hash := fun _ _ => 0 |}.
+Definition ex_k : key := [5].
+Definition ex_v : val := [6; 7].
+Definition ex_s1 : st := Eval vm_compute in fst (db_open flat_ops ex_P 7 (closed disk0)).
+Definition ex_s2 : st := Eval vm_compute in fst (db_put flat_ops ex_P [1] [2] (clear_trace ex_s1)).
+Definition ex_s3 : st := Eval vm_compute in fst (db_put flat_ops ex_P [3] [4] (clear_trace ex_s2)).
+Definition ex_s4 : st := Eval vm_compute in fst (db_put flat_ops ex_P ex_k ex_v (clear_trace ex_s3)).
+Definition ex_pre : list fsev := [ESync (FSeg 0 1); ECreate (FSeg 1 2); EHeader (FSeg 1 2)].
+Definition ex_img : disk := Eval vm_compute in torn (run_evs ex_pre (s_disk ex_s3)) 1 2 (mkput ex_k ex_v) 5.
+
+Lemma ex_open : db_open flat_ops ex_P 7 (closed disk0) = (ex_s1, OOpened false).
+Proof. vm_compute. reflexivity. Qed.
+Lemma ex_put1 : db_put flat_ops ex_P [1] [2] (clear_trace ex_s1) = (ex_s2, OOk).
+Proof. vm_compute. reflexivity. Qed.
+Lemma ex_put2 : db_put flat_ops ex_P [3] [4] (clear_trace ex_s2) = (ex_s3, OOk).
+Proof. vm_compute. reflexivity. Qed.
+Lemma ex_put3 : db_put flat_ops ex_P ex_k ex_v (clear_trace ex_s3) = (ex_s4, OOk).
+Proof. vm_compute. reflexivity. Qed.
+
+Lemma ex_params_ok : params_ok ex_P. Proof. reflexivity. Qed.
+
+Lemma ex_bytes (l : bytes) : forallb (fun b => b <? 256) l = true -> Forall byte l.
+Proof.
+  intros H. apply Forall_forall. intros b Hb. rewrite forallb_forall in H. apply N.ltb_lt. apply H. exact Hb.
+Qed.
+
+Lemma ex_room (s : st) : match s_mem s with Some m => room_b m | None => false end = true ->
+  exists m, s_mem s = Some m /\ room m.
+Proof.
+  destruct (s_mem s) as [m|]; [|discriminate]. intros H. exists m. split; [reflexivity|].
+  intros g Hg. unfold room_b in H. rewrite forallb_forall in H. apply N.ltb_lt. apply H. exact Hg.
+Qed.
+
+(* the freshly created database *)
+Lemma ex_inv1 : Inv ex_P ex_s1.
+Proof.
+  unfold Inv, ex_s1. cbn [s_mem s_disk].
+  split; [|split; [|split; [|split; [|split; [|split; [|split; [reflexivity|split; reflexivity]]]]]]].
+  - unfold DiskOK. cbn [d_segs map f_id f_seq]. split; [|split].
+    + constructor; [|constructor]. unfold dseg_ok. cbn [f_recs f_tail f_hdr].
+      split; [constructor|]. split; [apply tail_stuck_nil|]. split; [constructor|].
+      split; [discriminate|reflexivity].
+    + constructor; [intros []|constructor].
+    + constructor; [intros []|constructor].
+  - split.
+    + intros g [<-|[]]. eexists. split; [left; reflexivity|]. repeat split.
+    + intros f [<-|[]]. eexists. split; [left; reflexivity|]. repeat split.
+  - split; [intros g' []|exact Logic.I].
+  - split.
+    + intros g [<-|[]]. cbn [g_seq m_maxseq]. lia.
+    + intros g g' [<-|[]] [<-|[]] _. cbn [g_seq]. lia.
+  - intros _. eexists. split; [left; reflexivity|]. split; reflexivity.
+  - unfold index_agrees. cbn [m_idx map find option_map]. split; [constructor|]. split; [constructor|].
+    intros k. reflexivity.
+Qed.
+
+Lemma ex_inv2 : Inv ex_P ex_s2.
+Proof.
+  pose proof (put_ok ex_P (clear_trace ex_s1) [1] [2] ex_params_ok (Inv_clear _ _ ex_inv1)) as H.
+  rewrite ex_put1 in H. apply H.
+  - apply ex_room. vm_compute. reflexivity.
+  - apply ex_bytes. reflexivity.
+  - apply ex_bytes. reflexivity.
+  - vm_compute. discriminate.
+  - vm_compute. discriminate.
+Qed.
+
+Lemma ex_inv3 : Inv ex_P ex_s3.
+Proof.
+  pose proof (put_ok ex_P (clear_trace ex_s2) [3] [4] ex_params_ok (Inv_clear _ _ ex_inv2)) as H.
+  rewrite ex_put2 in H. apply H.
+  - apply ex_room. vm_compute. reflexivity.
+  - apply ex_bytes. reflexivity.
+  - apply ex_bytes. reflexivity.
+  - vm_compute. discriminate.
+  - vm_compute. discriminate.
+Qed.
+
+Example crash_put_nonvacuous :
+  (* the hypotheses of crash_put / C03_put *)
+  params_ok ex_P /\ Inv ex_P ex_s3 /\ (exists m, s_mem ex_s3 = Some m /\ room m) /\ bac_ok (s_disk ex_s3) /\
+  Forall byte ex_k /\ Forall byte ex_v /\ nlen ex_k <= max_key_len /\ nlen ex_v <= max_val_len /\
+  db_put flat_ops ex_P ex_k ex_v (clear_trace ex_s3) = (ex_s4, OOk) /\
+  (* the Put seals segment 0, creates segment 1 and appends there *)
+  s_trace ex_s4 = ex_pre ++ [EAppend 1 2 512 (mkput ex_k ex_v);
+                             EIndex (match s_mem ex_s4 with Some m => m_idx m | None => [] end);
+                             ESync (FSeg 1 2)] /\
+  (* a torn image: 5 of the 13 bytes of the record reached the new segment file *)
+  crash_image (s_disk ex_s3) (s_trace ex_s4) ex_img /\
+  ex_img = torn (run_evs ex_pre (s_disk ex_s3)) 1 2 (mkput ex_k ex_v) 5 /\
+  (exists f, In f (d_segs ex_img) /\ nlen (f_tail f) = 5) /\
+  (* it holds exactly the contents before the Put; the completed Put holds the new value *)
+  abs ex_img = abs (s_disk ex_s3) /\ sget (abs ex_img) ex_k = None /\ sget (abs ex_img) [1] = Some [2] /\
+  sget (abs (s_disk ex_s4)) ex_k = Some ex_v.
+Proof.
+  split; [exact ex_params_ok|]. split; [exact ex_inv3|].
+  split; [apply ex_room; vm_compute; reflexivity|]. split; [constructor|].
+  split; [apply ex_bytes; reflexivity|]. split; [apply ex_bytes; reflexivity|].
+  split; [vm_compute; discriminate|]. split; [vm_compute; discriminate|].
+  split; [exact ex_put3|]. split; [reflexivity|].
+  split.
+  - change (s_trace ex_s4) with (ex_pre ++ [EAppend 1 2 512 (mkput ex_k ex_v);
+                             EIndex (match s_mem ex_s4 with Some m => m_idx m | None => [] end);
+                             ESync (FSeg 1 2)]).
+    apply crash_image_app_r.
+    change ex_img with (torn (run_evs ex_pre (s_disk ex_s3)) 1 2 (mkput ex_k ex_v) 5).
+    apply ci_torn; reflexivity.
+  - split; [reflexivity|]. split.
+    + eexists. split; [right; left; reflexivity|reflexivity].
+    + repeat split; vm_compute; reflexivity.
+Qed.
+
+(* ... and recovery from that image gives a consistent database with the old contents *)
+Example crash_put_nonvacuous_recover :
+  exists s2, db_open flat_ops ex_P 9 {| s_mem := None; s_disk := ex_img; s_trace := [] |} = (s2, OOpened true) /\
+    Inv ex_P s2 /\ (forall k', sget (abs (s_disk s2)) k' = sget (abs (s_disk ex_s3)) k') /\
+    sget (abs (s_disk s2)) ex_k = None /\ sget (abs (s_disk s2)) [3] = Some [4].
+Proof.
+  destruct crash_put_nonvacuous as (HP & HI & Hroom & Hb & Hbk & Hbv & Hk & Hv & Eput & _ & Himg & _ & _ & Eabs & _).
+  destruct (crash_put ex_P ex_s3 ex_s4 ex_k ex_v OOk HP HI Hroom Hb Hbk Hbv Hk Hv Eput ex_img Himg) as (G1 & G2 & G3 & _).
+  destruct (crash_then_recover ex_P 9 ex_img HP G1 G2 G3) as (s2 & E2 & HI2 & _ & _ & Ha2).
+  exists s2. split; [exact E2|]. split; [exact HI2|].
+  split; [intros k'; rewrite Ha2, Eabs; reflexivity|]. rewrite !Ha2. split; vm_compute; reflexivity.
+Qed.
+
+(* ================================================================================================ *)
+(* Item 5 of the plan (crash_compact_step) needs the cursor invariant [CInv] of DBProofsCompact.v, which
+   did not exist when this file was written: not stated here. *)
+
+Print Assumptions crash_image_split.
+Print Assumptions image_facts_indep.
+Print Assumptions crash_facts_indep.
+Print Assumptions crash_put.
+Print Assumptions crash_delete.
+Print Assumptions crash_sync.
+Print Assumptions crash_then_recover.
+Print Assumptions C03_put.
+Print Assumptions C03_delete.
+Print Assumptions C03_sync.
+Print Assumptions crash_close.
+Print Assumptions C03_close.
+Print Assumptions crash_open_recover.
+Print Assumptions C04_recover_after_crashed_recovery.
+Print Assumptions C04_chain.
+Print Assumptions C04_epoch.
+Print Assumptions crash_put_nonvacuous.
+Print Assumptions crash_put_nonvacuous_recover.
